@@ -665,6 +665,10 @@ class _DefaultTitleFieldType(_DefaultFieldType):
     # title cells of a table)
 
     class TitlePalette(FieldType.PALETTE_CLASS):
+        # (colors of numbers and keywords in titles are described
+        # in the palette of usual fields)
+        PARENT_PALETTES = [FieldType.PALETTE_CLASS, ]
+
         SYNTAX_DEFAULTS = {
             # synt_id: default_color
             'RECORD.TITLE': "GREEN:bold",
